@@ -25,7 +25,7 @@ EXHAUSTIVE = {"quick": ["predicate corpus complete", "all 2^4 x species option c
 REQUIRE = {"predicate_objects": 200, "predicate_strings_exact": 150, "predicate_nonstrings": 60, "standardize_cases": 14,
            "standardize_cells_checked": 300, "standardize_missing_cells": 30, "standardize_col_mapper_cases": 3, "standardize_false_cases": 2,
            "standardize_locality_checks": 10, "tables_fingerprinted": 14, "multimerge_cases": 17, "multimerge_named_key_no_suffix": 6,
-           "multimerge_index_key": 6, "multimerge_suffix_cases": 8, "multimerge_inner": 3}
+           "multimerge_index_key": 6, "multimerge_suffix_cases": 8, "multimerge_inner": 3, "multimerge_left_right": 4}
 SHARDS = {"quick": 4, "thorough": 16}
 AA = set("ACDEFGHIKLMNPQRSTVWY")
 
@@ -238,7 +238,7 @@ def _join(tables, key_of, how):
     curcols = list(allcols[0])
     for ti in range(1, len(tables)):
         nxt = keys_per[ti]
-        ks = (set(cur) | set(nxt)) if how == "outer" else (set(cur) & set(nxt))
+        ks = {"outer": set(cur) | set(nxt), "inner": set(cur) & set(nxt), "left": set(cur), "right": set(nxt)}[how]
         new = {}
         for k in ks:
             lefts = cur.get(k) or [{c: None for c in curcols}]
@@ -292,6 +292,8 @@ def k_multimerge(ctx, tables, on, suffixes=None, how=None):
         ctx.count("multimerge_suffix_cases")
     if how == "inner":
         ctx.count("multimerge_inner")
+    if how in ("left", "right"):
+        ctx.count("multimerge_left_right")
     ctx.sample(f"multimerge:{'index' if on == 'index' else 'named'}:{'suffixes' if suffixes else 'plain'}", {"tables": tables[:2], "on": on, "suffixes": suffixes, "how": how})
     kw = {}
     if how:
@@ -432,10 +434,15 @@ def generate(tier, seed):
     yield "multimerge", {"tables": base, "on": "index"}, True
     yield "multimerge", {"tables": base, "on": "index", "suffixes": ["s1", "s2"]}, True
     yield "multimerge", {"tables": base, "on": "k", "how": "inner"}, True
+    four = [{"name": "a", "cols": ["x"], "rows": [["k1", 1], ["k2", 2], ["k3", 3]]}, {"name": "b", "cols": ["y"], "rows": [["k2", 3], ["k3", 4]]},
+            {"name": "c", "cols": ["z"], "rows": [["k2", 5], ["k4", 6]]}, {"name": "d", "cols": ["w"], "rows": [["k1", 7], ["k3", 8], ["k4", 9]]}]
+    for how in ("left", "right", "inner", None):
+        for on, suf in (("k", None), ("index", None), ("k", ["s1", "s2", "s3", "s4"])):
+            yield "multimerge", {"tables": four, "on": on, "suffixes": suf, "how": how}, True
     for i in range(600 * TS if thorough else 60):
         nt = rng.randint(2, 4)
         tables = _mm_tables(rng, nt, dup=(i % 11 == 0))
         on = "index" if i % 3 == 0 else "key"
         suffixes = [f"s{j}" for j in range(nt)] if i % 2 else None
-        how = "inner" if i % 7 == 0 else None
+        how = "inner" if i % 7 == 0 else ("left" if i % 7 == 3 else ("right" if i % 7 == 5 else None))
         yield "multimerge", {"tables": tables, "on": on, "suffixes": suffixes, "how": how}, i < 30
